@@ -159,6 +159,7 @@ type c01Ledger struct {
 	lastSteps                    float64
 	rainOf                       func(zeit int) (float64, bool) // rain (cm) of the weather record written for that day
 	exemptDays                   map[int]bool                   // further days on which measured values overwrite the state
+	wurzSub                      int                            // root depth at the previous sub-step of the day
 }
 
 func (l *c01Ledger) probe() *hermes.VerifProbe {
@@ -171,6 +172,7 @@ func (l *c01Ledger) probe() *hermes.VerifProbe {
 			l.exempt = zeit <= l.measDay || l.exemptDays[zeit]
 		},
 		AfterEvatra: func(g *hermes.GlobalVarsMain, zeit int, w *hermes.WaterSharedVars) {
+			l.wurzSub = g.WURZ
 			// water entering through the surface = rain of that day's record + the irrigation the model reports - actual evaporation
 			if l.rainOf == nil {
 				return
@@ -194,6 +196,9 @@ func (l *c01Ledger) probe() *hermes.VerifProbe {
 				s0 += g.WG[0][i] * g.DZ.Num
 				s1 += g.WG[1][i] * g.DZ.Num
 				tp += g.TP[i]
+			}
+			if subd == 2 && g.WURZ < l.wurzSub && tp > 0 {
+				l.c.Count("days_root_depth_shrinks_during_first_substep_with_uptake_and_later_substeps", 1)
 			}
 			if subd == 1 {
 				l.storStart = s0
@@ -252,6 +257,23 @@ func (l *c01Ledger) probe() *hermes.VerifProbe {
 		DayEnd: func(g *hermes.GlobalVarsMain, zeit int, steps, wdt float64, cs *hermes.CropSharedVars, w *hermes.WaterSharedVars) {
 			N := g.N
 			l.c.Transition(1)
+			if g.WURZ < l.wurzSub {
+				tpd := 0.0
+				for i := 0; i < N; i++ {
+					tpd += g.TP[i]
+				}
+				if os.Getenv("C01_DEBUG") != "" {
+					if f, err := os.OpenFile(os.Getenv("C01_DEBUG"), os.O_APPEND|os.O_CREATE|os.O_WRONLY, 0o644); err == nil {
+						fmt.Fprintf(f, "shrink %s day %d steps %g wurz %d->%d tp %g\n", l.label, zeit, steps, l.wurzSub, g.WURZ, tpd)
+						f.Close()
+					}
+				}
+				if tpd > 0 {
+					l.c.Count("days_root_depth_shrinks_with_uptake", 1)
+				} else {
+					l.c.Count("days_root_depth_shrinks_without_uptake", 1)
+				}
+			}
 			l.lastSteps = steps
 			if int(steps+0.5) > l.maxSteps {
 				l.maxSteps = int(steps + 0.5)
